@@ -89,6 +89,13 @@ def check_one(part, value, inst, p, c, entry, case, year):
         from stix2.serialization import STIXJSONEncoder
         k, r = lib_call(lambda: json.loads(json.dumps({"x": U.STIXdatetime(value.year, value.month, value.day, value.hour, value.minute, value.second, value.microsecond,
                                                                            tzinfo=value.tzinfo, precision=p, precision_constraint=c)}, cls=STIXJSONEncoder))["x"])
+    elif entry in ("deepcopy", "copy", "pickle"):     # a SECOND operation on the library's timestamp object: the copy is written like the original
+        import copy
+        import pickle
+        dup = {"deepcopy": copy.deepcopy, "copy": copy.copy, "pickle": lambda x: pickle.loads(pickle.dumps(x))}[entry]
+        k, r = lib_call(lambda: U.format_datetime(dup(U.STIXdatetime(value, precision=p, precision_constraint=c))))
+        if entry == "pickle":
+            p, c = "any", "exact"     # format metadata is not part of the pickled state (documented limit of the check): the instant must survive
     else:
         raise ValueError(entry)
     if k != "ok":
@@ -216,7 +223,7 @@ def run_special(case, part):
                     for p in PRECS:
                         for c in CONS:
                             sub = {"kind": "special", "zone": z.key, "time": [h, mi], "fold": fold, "precision": p, "constraint": c}
-                            for entry in ("parse+format", "direct"):
+                            for entry in ("parse+format", "direct", "deepcopy", "copy", "pickle"):
                                 sub["entry"] = entry
                                 r = check_one(part, value, inst, p, c, entry, sub, y)
                                 if r is not None:
@@ -232,6 +239,24 @@ def run_special(case, part):
                     if got != exp:
                         part.violation("C15/object/wrong-text/repeated-wall-clock-time", "an object property given a zone-aware datetime inside a repeated hour is written as another instant",
                                        {"kind": "special", "zone": z.key, "time": [h, mi], "fold": fold, "entry": "v21.Campaign.first_seen"}, exp, got)
+                        continue
+                    # ... and a SECOND operation on that object writes the same instant again
+                    import copy
+                    for oname, op in (("deepcopy", lambda: copy.deepcopy(o)), ("copy", lambda: copy.copy(o)), ("new_version", lambda: o.new_version(name="d")),
+                                      ("reparse", lambda: stix2.parse(o.serialize())), ("add_markings", lambda: o.add_markings("marking-definition--613f2e26-407d-48c7-9eca-b8e91df99dc9")),
+                                      ("in-bundle", lambda: stix2.v21.Bundle(o).objects[0]), ("dict(o)->constructor", lambda: stix2.v21.Campaign(**dict(o)))):
+                        part.evaluations += 1
+                        part.transitions += 1
+                        try:
+                            got2 = json.loads(op().serialize())["first_seen"]
+                        except Exception as e:
+                            got2 = "%s: %s" % (type(e).__name__, str(e)[:80])
+                        if got2 != exp:
+                            part.outcome("second-op:DIFFERS")
+                            part.violation("C15/object/second-operation-writes-another-instant/%s" % oname, "an operation on an object writes one of its untouched timestamps as another instant",
+                                           {"kind": "special", "zone": z.key, "time": [h, mi], "fold": fold, "entry": "v21.Campaign.first_seen", "then": oname}, exp, got2)
+                        else:
+                            part.outcome("second-op:same")
     # plain date objects: midnight UTC, through every writer that accepts them
     for (y, mo, d) in ((2020, 2, 29), (1, 1, 1), (9999, 12, 31), (999, 6, 15)):
         value = dt.date(y, mo, d)
